@@ -446,8 +446,8 @@ func (p *Parser) parseMultiplicativeExpression() (ast.Expression, error) {
 // parseJSONExpression parses JSON/JSONB operators (PostgreSQL) and type casting
 // Handles: ->, ->>, #>, #>>, @>, <@, ?, ?|, ?&, #-, ::
 func (p *Parser) parseJSONExpression() (ast.Expression, error) {
-	// Parse the left side using primary expression
-	left, err := p.parsePrimaryExpression()
+	// Parse the left side using primary expression (with an optional unary sign)
+	left, err := p.parseUnaryExpression()
 	if err != nil {
 		return nil, err
 	}
@@ -506,6 +506,53 @@ func (p *Parser) parseJSONExpression() (ast.Expression, error) {
 		}
 	}
 
+	return left, nil
+}
+
+// parseUnaryExpression parses an optional chain of unary signs (-expr, +expr)
+// followed by a primary expression and its :: casts. The sign binds tighter than
+// the binary operators and looser than ::, so -1::int is -(1::int) and
+// -a * b is (-a) * b.
+func (p *Parser) parseUnaryExpression() (ast.Expression, error) {
+	if p.isType(models.TokenTypeMinus) || p.isType(models.TokenTypePlus) {
+		op := ast.Minus
+		if p.isType(models.TokenTypePlus) {
+			op = ast.Plus
+		}
+		p.advance() // Consume sign
+
+		// A chain of signs recurses without passing through parseExpression
+		p.depth++
+		defer func() { p.depth-- }()
+		if p.depth > MaxRecursionDepth {
+			return nil, goerrors.RecursionDepthLimitError(
+				p.depth,
+				MaxRecursionDepth,
+				models.Location{Line: 0, Column: 0},
+				"",
+			)
+		}
+
+		operand, err := p.parseUnaryExpression()
+		if err != nil {
+			return nil, err
+		}
+		return &ast.UnaryExpression{Operator: op, Expr: operand}, nil
+	}
+
+	left, err := p.parsePrimaryExpression()
+	if err != nil {
+		return nil, err
+	}
+	for p.isType(models.TokenTypeDoubleColon) {
+		p.advance() // Consume ::
+
+		dataType, err := p.parseDataType()
+		if err != nil {
+			return nil, err
+		}
+		left = &ast.CastExpression{Expr: left, Type: dataType}
+	}
 	return left, nil
 }
 
